@@ -63,13 +63,14 @@ def strategy(date, ctx):
     def s(draw):
         cfg = {
             "ost": draw(st.booleans()),
-            "n_kids": draw(st.sampled_from([0, 0, 1, 2, 3, 5, 8, 10])),
-            "alter": draw(st.sampled_from([18, 22, 23, 30, 45, 60, 64])),
+            "n_kids": draw(st.one_of(st.sampled_from([0, 0, 1, 2, 3, 5, 8, 10]), st.integers(0, 12))),
+            "alter": draw(st.one_of(st.sampled_from([18, 22, 23, 30, 45, 60, 64]), st.integers(16, 66))),
             "step": draw(st.sampled_from([2.5, 5.0, 7.5] if ctx["tier"] == "quick" else [0.5, 1.0, 2.5])),
             "hours": draw(st.sampled_from([10.0, 20.0, 40.0])),
             # a private / occupational pension next to the wage (contributions on it do not depend on
             # the wage, so every shape condition in the wage is unaffected)
-            "pension": draw(st.sampled_from([0.0, 0.0, 0.0, 650.0, 3600.0, 9000.0])),
+            "pension": draw(st.one_of(st.just(0.0), st.just(0.0), st.sampled_from([650.0, 3600.0, 9000.0]),
+                                      st.floats(1.0, 12000.0).map(lambda v: round(v, 2)))),
         }
         return cfg
 
